@@ -63,7 +63,8 @@ ReaderLenFailed(e) ==
   IN (IF e.len # want \/ e.shape0 # want THEN {"length"} ELSE {})
      \cup (IF ~Samples(e.tl, want) THEN {"time_length"} ELSE {})
      \cup (IF ~Samples(e.stop, want) THEN {"stop_time"} ELSE {})
-     \cup (IF ~REq(RMul(rate, RI(2)), R(e.rawrate.p, e.rawrate.q)) THEN {"sample_rate"} ELSE {})
+     \cup (IF ~RLe(RAbs(RSub(RMul(rate, RI(2)), R(e.rawrate.p, e.rawrate.q))), RMul(R(e.rawrate.p, e.rawrate.q), RPow2(-50)))
+           THEN {"sample_rate"} ELSE {})
      \cup (IF e.full # "ok" \/ e.fulllen # want THEN {"read-all"} ELSE {})
      \cup (IF e.last # "ok" THEN {"read-last"} ELSE {})
      \cup (IF e.beyond1 # "EOFError" \/ e.beyond2 # "EOFError" THEN {"bounds"} ELSE {})
